@@ -1571,10 +1571,16 @@ class ModelBuilder:
                     # Lookup the shift and copy its working hours
                     shift_id = value
                     shift = obj.project.shifts[shift_id] if hasattr(obj.project, "shifts") else None
-                    if shift:
-                        for scIdx in range(obj.project.scenarioCount()):
-                            # Store the shift reference - ResourceScenario.onShift will use it
-                            obj[("shifts", scIdx)] = shift
+                    if not shift:
+                        # Silently falling back to the default calendar would schedule the
+                        # resource in hours the text never declared
+                        raise ValueError(
+                            f"Resource {obj.fullId} refers to the unknown shift '{shift_id}' "
+                            "(a shift must be declared before it is used)"
+                        )
+                    for scIdx in range(obj.project.scenarioCount()):
+                        # Store the shift reference - ResourceScenario.onShift will use it
+                        obj[("shifts", scIdx)] = shift
                 elif key == "vacation":
                     # Resource vacation - similar to leaves but type is always vacation
                     from scriptplan.core.leave import Leave
